@@ -78,6 +78,7 @@ type Solver struct {
 	dir      string
 	timeoutS int
 	agree    bool // thorough: also run the other solvers on proved obligations and report disagreement
+	single   bool // one round with exactly timeoutS
 	mu       sync.Mutex
 	n        int
 }
@@ -115,22 +116,68 @@ func (s *Solver) discharge(c *Ctx, o *Obligation) {
 		}
 		return
 	}
-	if !c.NoSlice {
-		s.run(c, o, c.slicedQuery(o, false), true)
+	// Interleave the sliced query (path condition restricted to the cone of
+	// influence of the goal: weaker hypotheses, so unsat is a proof) and the
+	// full query, short time limits first.
+	type attempt struct {
+		sliced bool
+		t      int
+	}
+	plan := []attempt{{true, min(3, s.timeoutS)}, {false, min(3, s.timeoutS)}, {true, min(10, s.timeoutS)}, {false, s.timeoutS}}
+	if os.Getenv("GOVC_OLDPLAN") != "" {
+		plan = []attempt{{true, min(3, s.timeoutS)}, {true, min(10, s.timeoutS)}, {false, min(3, s.timeoutS)}, {false, s.timeoutS}}
+	}
+	candidate := false
+	sawError := false
+	var candBackend string
+	var total float64
+	for ai, a := range plan {
+		if a.sliced && (c.NoSlice || candidate) {
+			continue
+		}
+		if ai >= 2 && a.t <= 3 {
+			continue // no longer limit than the short attempts
+		}
+		t := a.t
+		if !a.sliced && candidate {
+			// a candidate counterexample exists: give the full query a short try only
+			t = min(t, 4)
+		}
+		s1 := &Solver{dir: s.dir, timeoutS: t, agree: s.agree, single: true}
+		q := c.query(o, false)
+		if a.sliced {
+			q = c.slicedQuery(o, false)
+		}
+		s1.run(c, o, q, a.sliced)
+		total += o.SolverS
 		if o.Status == "PROVED" || o.Status == "DISAGREE" {
+			o.SolverS = total
 			return
 		}
+		if o.Status == "ERROR" {
+			sawError = true
+		}
+		if o.Status == "REFUTED" {
+			if !a.sliced {
+				o.SolverS = total
+				return
+			}
+			candidate = true
+			candBackend = o.Backend
+		}
 	}
-	slicedStatus, slicedBackend := o.Status, o.Backend
-	t := o.SolverS
-	if slicedStatus == "REFUTED" {
-		// a candidate counterexample exists: give the full query a short try only
-		s2 := &Solver{dir: s.dir, timeoutS: min(s.timeoutS, 4), agree: s.agree}
-		s2.run(c, o, c.query(o, false), false)
-	} else {
-		s.run(c, o, c.query(o, false), false)
+	o.SolverS = total
+	if sawError && !candidate && o.Status != "REFUTED" {
+		o.Status = "ERROR" // every solver rejected some query of this obligation: an engine defect, not a verdict
+		return
 	}
-	o.SolverS += t
+	slicedStatus, slicedBackend := "UNPROVED", ""
+	if candidate {
+		slicedStatus, slicedBackend = "REFUTED", candBackend
+		if o.Status != "REFUTED" {
+			o.Status = "UNPROVED"
+		}
+	}
 	if o.Status == "UNPROVED" && slicedStatus == "REFUTED" {
 		// only the sliced query has a model: a candidate counterexample
 		o.Status = "REFUTED"
@@ -154,7 +201,11 @@ func (s *Solver) run(c *Ctx, o *Obligation, q string, sliced bool) {
 	if sliced {
 		rounds = []int{min(3, quick), min(10, quick)}
 	}
+	if s.single {
+		rounds = []int{quick}
+	}
 	var disagree []string
+	nRuns, nErr := 0, 0
 	for ri, t := range rounds {
 		if ri == 1 && t <= rounds[0] {
 			break
@@ -163,6 +214,10 @@ func (s *Solver) run(c *Ctx, o *Obligation, q string, sliced bool) {
 			r := runSolver(sp, file, t)
 			total += r.secs
 			last = r
+			nRuns++
+			if r.answer == "error" {
+				nErr++
+			}
 			want := o.Expect
 			if r.answer == "unsat" || r.answer == "sat" {
 				o.Backend = r.backend
@@ -204,7 +259,7 @@ func (s *Solver) run(c *Ctx, o *Obligation, q string, sliced bool) {
 		}
 	}
 	o.Status = "UNPROVED"
-	if last.answer == "error" {
+	if last.answer == "error" || (nRuns > 0 && nErr == nRuns) {
 		o.Status = "ERROR"
 	}
 	o.Backend = last.backend
